@@ -893,11 +893,15 @@ class Interp:
             if itv[0] == "gen" and self._should_inline_gen(itv, node):
                 raise Undecided(f"for-loop over an inlined generator is not supported at {self.where(node)}")
 
-            def step(h: State, out: Outcome, itv=itv):
+            nonempty = self._known_nonempty(itv, s0)
+
+            def step(h: State, out: Outcome, itv=itv, s0=s0, nonempty=nonempty):
                 elem = ("elem", itv)
                 for e in self.client.call_raises(self, ("next", itv), node, h):
                     out.exc.append((e, h))
                 entered = self.assign(node.target, elem, h, out, node)
+                if nonempty and h is s0:
+                    return entered, []  # a collection known to be non-empty is iterated at least once
                 return entered, [h]
 
             o = self._run_loop(node, s0, step)
@@ -907,6 +911,16 @@ class Interp:
         return res
 
     s_AsyncFor = s_For
+
+    def _known_nonempty(self, itv: Value, st: State) -> bool:
+        v = itv
+        while True:
+            if self.truth(v, st) is True:
+                return True
+            if v[0] == "call" and v[1] in (("builtin", "reversed"), ("builtin", "iter"), ("builtin", "sorted"), ("builtin", "list"), ("builtin", "tuple"), ("builtin", "enumerate")) and len(v[2]) >= 1:
+                v = v[2][0]
+                continue
+            return False
 
     def _should_inline_gen(self, v: Value, node) -> bool:
         return False
